@@ -182,6 +182,10 @@ type combo struct {
 	out   chan []byte
 	tick  chan time.Time
 	aggIn interface{ Count() int64 }
+
+	gate     sync.Mutex
+	gateHeld bool
+	buf      []byte
 }
 
 func (c *combo) String() string {
@@ -242,7 +246,14 @@ func (c *combo) build(outCap int) {
 	c.out = make(chan []byte, outCap)
 	c.tick = make(chan time.Time)
 	m := harn.MustMatcher("", "", "", "", "^(.*)$", "")
-	a, err := aggregator.NewMocked("count", m, "$1", false, 1, 5, false, c.out, 2000, func() time.Time { return aggNow }, c.tick)
+	a, err := aggregator.NewMocked("count", m, "$1", false, 1, 5, false, c.out, 2000, func() time.Time {
+		// the aggregator's run loop parks here (first new bucket of a batch) while the harness holds the
+		// gate: every later point of the batch stays in the aggregator's inbox until the harness has
+		// overwritten the buffer it was dispatched from
+		c.gate.Lock()
+		c.gate.Unlock()
+		return aggNow
+	}, c.tick)
 	if err != nil {
 		panic(err)
 	}
@@ -264,14 +275,42 @@ type obs struct {
 	panicked              interface{}
 }
 
+// rest releases the aggregator (see the gate in its clock) and waits until it is at rest.
+func (c *combo) rest() {
+	if c.gateHeld {
+		c.gateHeld = false
+		c.gate.Unlock()
+	}
+	harn.AggRest(c.agg)
+}
+
 func (c *combo) dispatch(line []byte) (o obs) {
 	in0, inv0, oth0 := cIn.Count(), cInvalid.Count(), cOOO.Count()+cBlack.Count()+cUnroutable.Count()
 	c.route.Lines = c.route.Lines[:0]
 	c.route.Raw = c.route.Raw[:0]
+	// like the plain-text input, hand over a buffer that is reused for the next line: it is
+	// overwritten with the text of a line no validation level accepts as soon as Dispatch returns,
+	// while the point may still be queued in the aggregator
+	if !c.gateHeld {
+		c.gate.Lock()
+		c.gateHeld = true
+	} else if c.agg.VerifInLen() > 1500 {
+		c.rest()
+		c.gate.Lock()
+		c.gateHeld = true
+	}
+	if cap(c.buf) < len(line) {
+		c.buf = make([]byte, len(line)+64)
+	}
+	buf := c.buf[:len(line)]
+	copy(buf, line)
 	func() {
 		defer func() { o.panicked = recover() }()
-		c.t.Dispatch(line)
+		c.t.Dispatch(buf)
 	}()
+	for i := range buf {
+		buf[i] = "\x00REJECTED!"[i%len("\x00REJECTED!")]
+	}
 	o.dIn, o.dInvalid = cIn.Count()-in0, cInvalid.Count()-inv0
 	o.dOther = cOOO.Count() + cBlack.Count() + cUnroutable.Count() - oth0
 	o.fwd = append([]string(nil), c.route.Lines...)
@@ -434,9 +473,9 @@ func checkRecord(c *combo, recs []badmetrics.Record, key, text string, notBefore
 
 // drainAgg flushes the aggregator and returns name -> (number of output lines, all with count 1?)
 func drainAgg(c *combo) (map[string]int, []string) {
-	harn.AggRest(c.agg)
+	c.rest()
 	c.tick <- time.Unix(1<<40, 0)
-	harn.AggRest(c.agg)
+	c.rest()
 	got := map[string]int{}
 	var odd []string
 	for len(c.out) > 0 {
@@ -507,7 +546,7 @@ func runBatch(c *combo, items func(i int) (item, bool), single int) {
 		}
 		if i < single {
 			st.singleStepped++
-			harn.AggRest(c.agg)
+			c.rest()
 			d := c.aggIn.Count() - agg0
 			if (d == 1) == rejected || d > 1 || d < 0 {
 				fail("aggregator-step", c, it.line, fmt.Sprintf("aggregator took %d points for this line, rejected=%v", d, rejected))
@@ -862,7 +901,7 @@ func replay(path string) {
 	fmt.Fprintf(rep.Out, "replay: line %q\nreplay: model: claimed=%v valid=%v reason=%q parsed name %q\n", line, jl.Claimed, jl.Valid, jl.Reason, jl.Name)
 	agg0 := c.aggIn.Count()
 	o := c.dispatch(line)
-	harn.AggRest(c.agg)
+	c.rest()
 	recs := badReport(c.t.Bad())
 	fmt.Fprintf(rep.Out, "replay: observed: forwarded to route %q, aggregator points %d, d(in)=%d d(invalid)=%d, bad-metrics records %+v\n", o.fwd, c.aggIn.Count()-agg0, o.dIn, o.dInvalid, recs)
 	runBatch(c, func(i int) (item, bool) { return item{line: line, jl: jl}, i == 0 }, 1)
